@@ -355,20 +355,34 @@ class Gen:
             if depth > 1 and level < 2 and r.random() < 0.3:
                 out += self.choice_block(level + 1, depth - 1, temps, knot, knot_index, targets)
             if self.w["msgs"] and r.random() < 0.25 * self.w["msgs"]:
+                pad2 = "  " * level
                 if r.random() < 0.5:
-                    # a warning in the very continue that then hits the error
+                    # a warning in the very continue that then runs into the error (the error is met while
+                    # looking ahead past the end of the line that raised the warning)
                     self.wt_n = getattr(self, "wt_n", 0) + 1
-                    out.append("  " * level + "{ false:")
-                    out.append("  " * level + "  ~ temp wt%d = 0" % self.wt_n)
-                    out.append("  " * level + "}")
-                    out.append("  " * level + "%s {wt%d}" % (self.word(), self.wt_n))
-                if r.random() < 0.5:
-                    out.append("  " * level + "~ dv = 0")
-                    out.append("  " * level + self.word())
-                    out.append("  " * level + "-> dv")
+                    out.append(pad2 + "{ false:")
+                    out.append(pad2 + "  ~ temp wt%d = 0" % self.wt_n)
+                    out.append(pad2 + "}")
+                    c3 = r.random()
+                    if c3 < 0.4 and self.ints:
+                        # ... or the error is raised on the same line, after the warning
+                        v = r.choice(self.ints)
+                        out.append(pad2 + "%s {wt%d} {7 / (%s - %s)} %s" % (self.word(), self.wt_n, v, v, self.word()))
+                        out.append(pad2 + self.word())
+                    elif c3 < 0.7:
+                        out.append(pad2 + "~ dv = 0")
+                        out.append(pad2 + "%s {wt%d}" % (self.word(), self.wt_n))
+                        out.append(pad2 + "-> dv")
+                    else:
+                        out.append(pad2 + "%s {wt%d}" % (self.word(), self.wt_n))
+                        out.append(pad2 + "->->")
+                elif r.random() < 0.5:
+                    out.append(pad2 + "~ dv = 0")
+                    out.append(pad2 + self.word())
+                    out.append(pad2 + "-> dv")
                 else:
-                    out.append("  " * level + self.word())
-                    out.append("  " * level + "->->")
+                    out.append(pad2 + self.word())
+                    out.append(pad2 + "->->")
             elif r.random() < 0.35 and targets:
                 out.append("  " * level + "-> " + r.choice(targets))
         if self.p("fallback") and r.random() < 0.5:
